@@ -327,7 +327,15 @@ def eval_agg(agg, env, db, rule_outer):
             raise Undefined("min/max on records")
         return
     if op == "mean":
-        raise Undefined("mean handled by family-specific oracle")
+        # souffle accumulates the values and their number as 32-bit floats and divides once; with an exactly representable sum
+        # (checked by exact_float_sum) the result is the correctly rounded quotient whatever the order of summation
+        if k != "f":
+            raise Undefined("mean of non-float values")
+        if any(x.isnan() for x in vals):
+            raise Undefined("nan")
+        total = exact_float_sum(vals)
+        yield F32(total.f / len(vals))
+        return
     raise Undefined("aggregate " + op)
 
 
